@@ -10,7 +10,11 @@ import (
 func init() {
 	drivers["roots"] = func(g *G) {
 		ctxFor := func(p int) Ctx {
-			return Ctx{P: p, Emin: -100000, Emax: 100000, R: modeNames[g.R.Intn(8)]}
+			c := Ctx{P: p, Emin: -100000, Emax: 100000, R: modeNames[g.R.Intn(8)]}
+			if g.R.Intn(5) == 0 { // narrow range: sub-normal roots
+				c.Emin, c.Emax = -g.R.between(0, 12), g.R.between(p, p+12)
+			}
+			return c
 		}
 		emitBoth := func(c Ctx, x Dec) {
 			g.emit(mkA("sqrt", c, absDec(x), x, 0, "", fresh), "sqrt")
@@ -47,7 +51,7 @@ func init() {
 			e := g.R.between(-30, 30)
 			var x *big.Int
 			neg := false
-			kind := g.R.Intn(9)
+			kind := g.R.Intn(10)
 			switch kind {
 			case 0: // perfect square and neighbours
 				x = new(big.Int).Mul(r, r)
@@ -59,6 +63,14 @@ func init() {
 				x.Mul(x, big.NewInt(25)) // ((2r+1)^2/4) * 100
 				x.Add(x, big.NewInt(int64(g.R.between(-1, 1))))
 				e = 2*e - 2
+			case 7: // (r + 1/2)^2 -+ a tiny amount many digits further down: an operand far longer than the precision, a hair off a tie
+				t := new(big.Int).Add(new(big.Int).Lsh(r, 1), big.NewInt(1))
+				x = new(big.Int).Mul(t, t)
+				x.Mul(x, big.NewInt(25))
+				k := g.R.between(2, 14)
+				x.Mul(x, new(big.Int).Exp(big.NewInt(10), big.NewInt(int64(2*k)), nil))
+				x.Add(x, big.NewInt(int64(g.R.between(-2, 2))))
+				e = 2*e - 2 - 2*k
 			case 2: // all nines / one-plus-epsilon coefficients, any parity of exponent
 				k := g.R.between(1, 2*p+3)
 				x = new(big.Int).Exp(big.NewInt(10), big.NewInt(int64(k)), nil)
@@ -95,7 +107,7 @@ func init() {
 				x = big.NewInt(int64(g.R.between(1, 9)))
 			}
 			d := finDec(neg, x, e)
-			if kind == 3 || kind >= 6 {
+			if kind == 3 || kind == 6 || kind >= 8 {
 				g.emit(mkA("cbrt", c, d, d, 0, "", fresh), "cbrt")
 			}
 			if kind != 3 {
